@@ -231,29 +231,42 @@ func (s *ReverseSuffixSetSearcher) findIndicesAtImpl(haystack []byte, at int, re
 			return matchStart, lastSuffixEnd, true
 		}
 
-		// Use reverse DFA with anti-quadratic guard to find match start
-		matchStart := s.reverseDFA.SearchReverseLimited(revCache, haystack, at, suffixEnd, minStart)
-		if matchStart >= 0 {
-			// Forward verification: the greedy match from matchStart may run over
-			// later suffix occurrences (.+(abab|babc) on "xababc" ends at 6, not 5).
-			fwdCache := s.fwdCachePool.Get().(*lazy.DFACache)
-			matchEnd := s.forwardDFA.SearchAt(fwdCache, haystack, matchStart)
-			s.fwdCachePool.Put(fwdCache)
-			if matchEnd >= 0 {
-				return matchStart, matchEnd, true
+		// Use reverse DFA with anti-quadratic guard to find match start.
+		// Several suffix literals can occur at one position when one is a prefix of
+		// another ("foo" and "food" for [^ ]+(?:\dfoo|[a-z]food)): each is a candidate
+		// end of its own.
+		maxEnd := minStart
+		for next := 0; ; {
+			var litLen int
+			litLen, next = s.nextSuffixLen(haystack, pos, next)
+			if litLen == 0 {
+				break
 			}
-			// The forward DFA gave up: let the NFA engine answer, below.
-			matchStart = lazy.SearchReverseLimitedQuadratic
-		}
-		if matchStart == lazy.SearchReverseLimitedQuadratic {
-			// Quadratic behavior detected - fall back to PikeVM
-			return s.pikevm.SearchAt(haystack, at)
+			suffixEnd = pos + litLen
+			matchStart := s.reverseDFA.SearchReverseLimited(revCache, haystack, at, suffixEnd, minStart)
+			if matchStart >= 0 {
+				// Forward verification: the greedy match from matchStart may run over
+				// later suffix occurrences (.+(abab|babc) on "xababc" ends at 6, not 5).
+				fwdCache := s.fwdCachePool.Get().(*lazy.DFACache)
+				matchEnd := s.forwardDFA.SearchAt(fwdCache, haystack, matchStart)
+				s.fwdCachePool.Put(fwdCache)
+				if matchEnd >= 0 {
+					return matchStart, matchEnd, true
+				}
+				// The forward DFA gave up: let the NFA engine answer, below.
+				matchStart = lazy.SearchReverseLimitedQuadratic
+			}
+			if matchStart == lazy.SearchReverseLimitedQuadratic {
+				// Quadratic behavior detected - fall back to PikeVM
+				return s.pikevm.SearchAt(haystack, at)
+			}
+			if suffixEnd > maxEnd {
+				maxEnd = suffixEnd
+			}
 		}
 
 		// Update anti-quadratic guard
-		if suffixEnd > minStart {
-			minStart = suffixEnd
-		}
+		minStart = maxEnd
 
 		searchStart = pos + 1
 		if searchStart >= len(haystack) {
@@ -290,26 +303,32 @@ func (s *ReverseSuffixSetSearcher) IsMatch(haystack []byte) bool {
 			continue
 		}
 
-		revEnd := pos + suffixLen
-		if revEnd > len(haystack) {
-			revEnd = len(haystack)
-		}
-
-		// Use reverse DFA with anti-quadratic guard to check if pattern matches
-		revResult := s.reverseDFA.SearchReverseLimited(revCache, haystack, 0, revEnd, minStart)
-		if revResult >= 0 {
-			return true
-		}
-		if revResult == lazy.SearchReverseLimitedQuadratic {
-			// Quadratic behavior detected - fall back to PikeVM
-			_, _, matched := s.pikevm.Search(haystack)
-			return matched
+		// Use reverse DFA with anti-quadratic guard to check if pattern matches,
+		// for every suffix literal that occurs at pos (see findIndicesAtImpl).
+		maxEnd := minStart
+		for next := 0; ; {
+			var litLen int
+			litLen, next = s.nextSuffixLen(haystack, pos, next)
+			if litLen == 0 {
+				break
+			}
+			revEnd := pos + litLen
+			revResult := s.reverseDFA.SearchReverseLimited(revCache, haystack, 0, revEnd, minStart)
+			if revResult >= 0 {
+				return true
+			}
+			if revResult == lazy.SearchReverseLimitedQuadratic {
+				// Quadratic behavior detected - fall back to PikeVM
+				_, _, matched := s.pikevm.Search(haystack)
+				return matched
+			}
+			if revEnd > maxEnd {
+				maxEnd = revEnd
+			}
 		}
 
 		// Update anti-quadratic guard
-		if revEnd > minStart {
-			minStart = revEnd
-		}
+		minStart = maxEnd
 
 		start = pos + 1
 		if start >= len(haystack) {
@@ -321,10 +340,18 @@ func (s *ReverseSuffixSetSearcher) IsMatch(haystack []byte) bool {
 // getSuffixLen returns the length of the suffix literal that matched at position pos.
 // This iterates through all suffix literals to find which one matched.
 func (s *ReverseSuffixSetSearcher) getSuffixLen(haystack []byte, pos int) int {
-	for i := 0; i < s.suffixLiterals.Len(); i++ {
+	litLen, _ := s.nextSuffixLen(haystack, pos, 0)
+	return litLen
+}
+
+// nextSuffixLen returns the length of the first suffix literal with index >= from
+// that occurs at position pos, and the index to continue the enumeration from;
+// the length is 0 when no further literal occurs there.
+func (s *ReverseSuffixSetSearcher) nextSuffixLen(haystack []byte, pos, from int) (litLen, next int) {
+	for i := from; i < s.suffixLiterals.Len(); i++ {
 		lit := s.suffixLiterals.Get(i)
 		litBytes := lit.Bytes
-		litLen := len(litBytes)
+		litLen = len(litBytes)
 
 		// Check if this literal matches at position pos
 		if pos+litLen <= len(haystack) {
@@ -336,9 +363,9 @@ func (s *ReverseSuffixSetSearcher) getSuffixLen(haystack []byte, pos int) int {
 				}
 			}
 			if match {
-				return litLen
+				return litLen, i + 1
 			}
 		}
 	}
-	return 0
+	return 0, s.suffixLiterals.Len()
 }
